@@ -55,6 +55,9 @@ def run(chk, tier, proof_ok):
         cl = {k for k in range(len(parts)) if rng.random() < 0.4}
         nruns += 1
         take(realsearch.partition_findings(c, total, parts, cl))
+    df, dst = realsearch.dtype_findings(chk.seed, 12 if full else 4)
+    take(df)
+    chk.coverage['dtype_preserved_by_clear'] = dst
     chk.coverage['search'] = {'partitioned_runs': nruns, 'exhaustive_scope': 'all compositions of %d with all clear subsets '
                               '(sampled 40%% in the quick tier) for %d configurations' % (N, ncfg),
                               'oracle': 'bit-exact equality with one uninterrupted run of the same seed'}
